@@ -75,8 +75,6 @@ ASSUMPTIONS = [
     'normalised, (1,1) broadcast operand read at 0, scalar-evaluator fallback for column-major operands and identity-less ops)',
 ]
 PARTIAL = [
-    'outer: outer_covers_once (every output cell written exactly once, any operand rank) is proved; that the lhs/rhs offsets of each step '
-    'are the outer-product operands, and the evaluator-level simdOuter = scalarOuter, are not (correspondence + NumPy only)',
     'matmul: matmul_inner_covers_once (the inner steps of every output element read its lhs row / rhs column exactly once, any K) is '
     'proved; the evaluator-level simdMatmul = sum of products is not (fmadd rounding is outside the model anyway; correspondence + NumPy); '
     'the column-major-lhs fallback of eval_matmul is not modelled (the harness only builds the accepted row-major lhs / column-major rhs)',
